@@ -63,6 +63,92 @@ fn expand(arg: &Value, len: usize) -> Vec<usize> {
     } else { vec![dec_arg(arg)] }
 }
 
+thread_local! { pub static SUBSETS: std::cell::Cell<bool> = std::cell::Cell::new(false); }
+
+/// The file of a wavelet matrix core in which the bitvector of every level carries the subset of support structures
+/// chosen by `subset(level)` (bit 0 rank, bit 1 select, bit 2 select_zero) instead of all of them: the document makes every
+/// support structure optional, and a plain bitvector with any subset enabled is a structure the library writes.
+fn core_file_with_subsets(core: &WMCore, subset: &dyn Fn(usize) -> u8) -> Vec<u8> {
+    use simple_sds::bit_vector::BitVector;
+    use simple_sds::raw_vector::{AccessRaw, RawVector};
+    use simple_sds::ops::{Rank, Select, SelectZero};
+    let full = crate::layout::to_bytes(core);
+    let elems = crate::layout::to_elements(&full);
+    let mut cur = crate::layout::Cursor::new(&elems);
+    let width = cur.elem();
+    let mut out: Vec<u8> = width.to_le_bytes().to_vec();
+    for level in 0..width as usize {
+        let l = cur.bit();
+        let mut raw = RawVector::with_len(l.raw.len, false);
+        for i in 0..l.raw.len { if (l.raw.words[i / 64] >> (i % 64)) & 1 == 1 { raw.set_bit(i, true); } }
+        let mut b = BitVector::from(raw);
+        let s = subset(level);
+        if s & 1 != 0 { b.enable_rank(); }
+        if s & 2 != 0 { b.enable_select(); }
+        if s & 4 != 0 { b.enable_select_zero(); }
+        out.extend_from_slice(&crate::layout::to_bytes(&b));
+    }
+    assert!(cur.done(), "TOOL-ERROR: trailing elements in a wavelet matrix core");
+    out
+}
+
+/// C19 / C07: cores and matrices whose levels carry every uniform subset of supports and two per-level mixtures load, equal the
+/// original and answer like it.
+fn replay_subsets(vals: &[u64], case: &Value, wm: &WaveletMatrix, core: &WMCore, ckey: u64, tally: &mut Tally) {
+    use simple_sds::serialize::Serialize;
+    let len = vals.len();
+    let wm_bytes = crate::layout::to_bytes(wm);
+    let core_size = core.size_in_bytes();
+    let choices: Vec<(String, Box<dyn Fn(usize) -> u8>)> = (0..8u8).map(|s| (format!("every level with subset {}", s), Box::new(move |_l: usize| s) as Box<dyn Fn(usize) -> u8>))
+        .chain([("level l with subset (3l + 1) mod 8".to_string(), Box::new(|l: usize| ((3 * l + 1) % 8) as u8) as Box<dyn Fn(usize) -> u8>),
+                ("level l with subset (5l + 3) mod 8".to_string(), Box::new(|l: usize| ((5 * l + 3) % 8) as u8) as Box<dyn Fn(usize) -> u8>)]).collect();
+    for (ci, (what, f)) in choices.iter().enumerate() {
+        let ctx = |op: &str| json!({"kind": "wm", "vals": case["vals"], "type": "u64", "op": op, "supports in the file": what});
+        let r = guarded(|| {
+            let cfile = core_file_with_subsets(core, f.as_ref());
+            let mut out: Vec<(&'static str, Value, Value)> = Vec::new();
+            let mut c = std::io::Cursor::new(&cfile);
+            match WMCore::load(&mut c) {
+                Ok(lc) => {
+                    out.push(("core file with these supports: load consumes the file and == the original", json!([cfile.len(), true]), json!([c.position(), lc == *core])));
+                    let maxv = 1u64 << core.width().min(4);
+                    let a: Vec<Value> = (0..maxv).map(|v| json!((0..=len + 1).map(|i| query(wm, &lc, "up_with", i, v)).collect::<Vec<Value>>())).collect();
+                    let b: Vec<Value> = (0..maxv).map(|v| json!((0..=len + 1).map(|i| query(wm, core, "up_with", i, v)).collect::<Vec<Value>>())).collect();
+                    out.push(("loaded core: map_up_with answers as the original", json!(b), json!(a)));
+                    let a: Vec<Value> = (0..=len).map(|i| query(wm, &lc, "down", i, 0)).collect();
+                    let b: Vec<Value> = (0..=len).map(|i| query(wm, core, "down", i, 0)).collect();
+                    out.push(("loaded core: map_down answers as the original", json!(b), json!(a)));
+                },
+                Err(e) => out.push(("core file with these supports loads", json!("ok"), json!(e.to_string()))),
+            }
+            let mut wfile = wm_bytes[..8].to_vec();
+            wfile.extend_from_slice(&cfile);
+            wfile.extend_from_slice(&wm_bytes[8 + core_size..]);
+            let mut c = std::io::Cursor::new(&wfile);
+            match WaveletMatrix::load(&mut c) {
+                Ok(lw) => {
+                    out.push(("matrix file with these supports: load consumes the file and == the original", json!([wfile.len(), true]), json!([c.position(), lw == *wm])));
+                    let maxv = 1u64 << wm.width().min(4);
+                    for op in ["rank", "sel", "pred", "succ"] {
+                        let a: Vec<Value> = (0..maxv).map(|v| json!((0..=len + 1).map(|i| query(&lw, core, op, i, v)).collect::<Vec<Value>>())).collect();
+                        let b: Vec<Value> = (0..maxv).map(|v| json!((0..=len + 1).map(|i| query(wm, core, op, i, v)).collect::<Vec<Value>>())).collect();
+                        out.push(("loaded matrix answers as the original", json!([op, b]), json!([op, a])));
+                    }
+                    let a: Vec<Value> = (0..maxv).map(|v| iter_items(&lw, v)).collect();
+                    let b: Vec<Value> = (0..maxv).map(|v| iter_items(wm, v)).collect();
+                    out.push(("loaded matrix: value_iter as the original", json!(b), json!(a)));
+                },
+                Err(e) => out.push(("matrix file with these supports loads", json!("ok"), json!(e.to_string()))),
+            }
+            out
+        });
+        match r {
+            Ok(list) => for (j, (op, exp, got)) in list.iter().enumerate() { tally.check(hkey(&[ckey, 700 + ci as u64, j as u64]), len > 0, &|| ctx(op), exp, got); },
+            Err(msg) => { tally.check(hkey(&[ckey, 700 + ci as u64]), true, &|| ctx("panic"), &json!("no panic"), &json!(format!("PANIC: {}", msg))); },
+        }
+    }
+}
+
 pub fn replay_case(case: &Value, tally: &mut Tally) {
     tally.cases += 1;
     let vals: Vec<u64> = case["vals"].as_array().unwrap().iter().map(|x| x.as_u64().unwrap()).collect();
@@ -76,6 +162,10 @@ pub fn replay_case(case: &Value, tally: &mut Tally) {
             Err(msg) => { tally.check(hkey(&[ckey, hstr(ty)]), true, &|| json!({"kind": "wm", "vals": case["vals"], "type": ty, "op": "build"}), &json!("ok"), &json!(format!("PANIC: {}", msg))); continue; },
         };
         let (wm, core) = (&built.0, &built.1);
+        if SUBSETS.with(|c| c.get()) {
+            if *ty == "u64" { replay_subsets(&vals, case, wm, core, ckey, tally); }
+            continue;
+        }
         let ctx = |op: &str, a: &Value, v: u64| json!({"kind": "wm", "vals": case["vals"], "type": ty, "op": op, "arg": a, "value": v});
         let nt = len > 0;
         tally.check(hkey(&[ckey, 1]), nt, &|| ctx("len", &json!(0), 0), &json!(len), &json!(wm.len()));
